@@ -73,7 +73,7 @@ def run(ctx):
     standard_front(ctx, __import__("c10"))
     rng = ctx.rng
     known, _ = load_known(PROP)
-    N = 400 if ctx.tier == "thorough" else 80
+    N = 1500 if ctx.tier == "thorough" else 80
     cases, meta = [], []
     for _ in range(N):
         for kind, g in (("hdr1", gen_b1), ("hdr2", gen_b2i), ("hdr2", gen_b2o)):
